@@ -68,6 +68,28 @@ pub struct Acc {
 }
 
 impl Acc {
+    /// an empty accumulator for a silent re-execution (known-finding signatures by repaired input)
+    pub fn scratch(&self) -> Acc {
+        Acc {
+            part: self.part.clone(),
+            index: self.index,
+            evaluations: 0,
+            transitions: 0,
+            traces: 0,
+            nontrivial: 0,
+            nontrivial_hashes: HashSet::new(),
+            classes: BTreeMap::new(),
+            counters: BTreeMap::new(),
+            sets: BTreeMap::new(),
+            samples: vec![],
+            sample_cap: 0,
+            violations: vec![],
+            violation_count: 0,
+            known: BTreeMap::new(),
+            findings: self.findings.clone(),
+            prop: self.prop,
+        }
+    }
     pub fn class(&mut self, c: &str) {
         *self.classes.entry(c.to_string()).or_insert(0) += 1;
     }
